@@ -468,12 +468,118 @@ def run_nothing(tier):
     return part
 
 
+def client_abort_case(case):
+    """the library's own client: a transfer is opened as a stream, j blocks are moved, Client.abort() is called
+    (waiting for the answer, or not waiting and reading the answer by hand afterwards); then the client is used on.
+    The file is long and the window lock-step, so the server cannot have finished when the ABOR arrives."""
+    from vf.world import Hang
+    direction, j, wait, nblocks, backend = case["direction"], case["j"], case["wait"], case["nblocks"], case["backend"]
+    part = report.Partial()
+    data = payload(nblocks * B)
+    tree_ = {"big": data, "keep": b"keep-me", "d": {f"e{i:02d}": b"" for i in range(12)}}
+    bk = {"memory": dict(backend="memory"), "slow": dict(backend="slow", delay=0.125), "async": dict(backend="async")}[backend]
+    rig = Rig(n_sessions=0, tree=tree_, window=1, server_kwargs={"block_size": B, "wait_future_timeout": 1}, **bk)
+    problems = []
+    got = bytearray()
+    out = {}
+    try:
+        w = rig.world
+        a = w.aioftp
+
+        async def main():
+            c = a.Client(path_io_factory=a.MemoryPathIO)
+            await c.connect("127.0.0.1", 2121)
+            await c.login()
+            if direction == "download":
+                stream = await c.download_stream("/big")
+                for _ in range(j):
+                    got.extend(await stream.read(B))
+            elif direction == "list":
+                stream = await c.get_stream("LIST /d", "1xx")
+                for _ in range(j):
+                    got.extend(await stream.readline())
+            else:
+                stream = await c.upload_stream("/new") if direction == "upload" else await c.append_stream("/keep")
+                for i in range(j):
+                    await stream.write(data[i * B:(i + 1) * B])
+            if wait:
+                await c.abort()
+            else:
+                await c.abort(wait=False)
+                code, info = await c.command(None, "226", "426")
+                out["by_hand"] = str(code)
+            stream.close()
+            # the client is in step with the server: every following call gets its own answer
+            out["pwd"] = str(await c.get_current_directory())
+            out["exists"] = await c.exists("/keep")
+            async with c.download_stream("/big") as st:
+                out["again"] = await st.read()
+            async with c.upload_stream("/second") as st:
+                await st.write(b"second")
+            out["pwd2"] = str(await c.get_current_directory())
+            await c.quit()
+
+        try:
+            w.run(main())
+        except Hang:
+            problems.append({"kind": "client-abort-hangs"})
+        except Exception as exc:  # noqa
+            problems.append({"kind": "client-abort-raises", "exc": repr(exc)[:300]})
+        w.settle(0)
+        snap = rig.snapshot()
+        if not problems:
+            if out.get("pwd") != "/" or out.get("pwd2") != "/" or out.get("exists") is not True:
+                problems.append({"kind": "client-out-of-step-after-abort", "out": {k: repr(v)[:60] for k, v in out.items()}})
+            if out.get("again") != data:
+                problems.append({"kind": "followup-transfer", "got": len(out.get("again") or b"")})
+            if snap.get("/second") != b"second":
+                problems.append({"kind": "followup-upload", "stored": repr(snap.get("/second"))[:60]})
+        if direction == "download" and not data.startswith(bytes(got)):
+            problems.append({"kind": "received-not-a-prefix", "got": bytes(got).decode("latin-1")})
+        if direction == "upload":
+            stored = snap.get("/new")
+            if stored is not None and not data[:j * B].startswith(stored):
+                problems.append({"kind": "stored-not-a-prefix", "stored": repr(stored)[:80]})
+        if direction == "append":
+            stored = snap.get("/keep")
+            if stored is None or not (b"keep-me" + data[:j * B]).startswith(stored) or not stored.startswith(b"keep-me"):
+                problems.append({"kind": "stored-not-a-prefix", "stored": repr(stored)[:80]})
+        if snap.get("/big") != data:
+            problems.append({"kind": "source-file-changed"})
+        part.evaluations += 1
+        part.traces += 1
+        part.transitions += w.net.n_events
+        tr = report.fp(w.net.trace)
+        part.states.add(tr)
+        part.nontrivial.add(tr)
+        part.outcomes[report.fp(["client-abort", direction, wait, sorted(p["kind"] for p in problems)])] += 1
+        part.counters["client_abort_cases"] += 1
+        for p in problems:
+            part.violation({"kind": p["kind"], "verb": "Client.abort:" + direction, "wait": wait},
+                           {"problem": p, "case": case}, replay={"client_abort": case})
+    finally:
+        rig.close()
+    return part
+
+
+def client_abort_items(tier):
+    items = []
+    for direction in ("download", "upload", "append", "list"):
+        for wait in (True, False):
+            for backend in ("memory", "slow") + (("async",) if tier != "quick" else ()):
+                for j in range(0, 4):
+                    if direction == "list" and j > 2:
+                        continue
+                    items.append({"direction": direction, "j": j, "wait": wait, "nblocks": 12, "backend": backend})
+    return items
+
+
 def run(tier, seed, t0):
     items = build_items(tier)
     if seed:
         k = seed % len(items)
         items = items[k:] + items[:k]
-    part = report.merge_all(report.pmap(_work, items) + [run_nothing(tier)])
+    part = report.merge_all(report.pmap(_work, items) + [run_nothing(tier)] + report.pmap(client_abort_case, client_abort_items(tier)))
     bounds = {"verbs": ["RETR", "STOR", "APPE", "LIST", "MLSD"], "sizes": SIZES, "block_size": B,
               "backends": ["memory", "slow(0.125s completion latency)", "AsyncPathIO (every operation an executor job)"],
               "abort_positions": "k=0 (same segment as the verb) and after every network event k=1..N+1 counted from "
@@ -490,6 +596,10 @@ def run(tier, seed, t0):
 def replay(path):
     data = json.loads(open(path).read())
     rp = data["replay"]
+    if "client_abort" in rp:
+        part = client_abort_case(rp["client_abort"])
+        print(json.dumps([v["detail"] for v in part.violations], indent=1, default=repr))
+        return 1 if part.violations else 0
     res = run_abort(rp["case"], Chooser(rp["choices"], rp.get("kinds") or None))
     print(json.dumps({"case": rp["case"], "choices": rp["choices"], "problems": res["problems"]}, indent=1, default=repr))
     return 1 if res["problems"] else 0
